@@ -65,6 +65,8 @@ def expected_equal(a, b):
     if ka == 'num' and a.n[2] != b.n[2]:
         # a Quantity compares as its value against a plain number (C20); two Quantities with differing units raise
         return (a.n[1] == b.n[1]) if (a.n[2] is None or b.n[2] is None) and a.n[1] == a.n[1] and b.n[1] == b.n[1] else None
+    if ka == 'num' and a.n[2] == b.n[2] and a.n[1] == b.n[1]:
+        return True                      # 0.0 == -0.0: equality is numeric equality (only the round-trip checks tell the two zeros apart)
     if N.same(a.n, b.n, 'exact') is None and N.same(b.n, a.n, 'exact') is None:
         if has_nan(a.n):
             return None
